@@ -26,7 +26,7 @@ def _norm(s: str) -> str:
 def families(ctx):
     """name -> (SeqV of (snap, channel, value) tuples, assignment node), plus the DataFrame construction."""
     M = ctx.M
-    fn = M.fn(WRITE_NOTES)
+    fn = M.nfn(WRITE_NOTES, closures=True)
     F = Flow()
     fam = {}
     frame = None
@@ -150,7 +150,7 @@ def rule_r1(ctx) -> List[R.Inst]:
 def rule_r2(ctx) -> List[R.Inst]:
     M = ctx.M
     rid = "C05.R2"
-    fn = M.fn(WRITE_NOTES)
+    fn = M.nfn(WRITE_NOTES, closures=True)
     file = M.mods[fn.mod].rel
     inv = c04.inverted_maps(fn.node)
     cfg = [p for p in params_of(fn.node) if "config" in p]
@@ -289,21 +289,42 @@ def rule_r5(ctx) -> List[R.Inst]:
     """line shapes"""
     M = ctx.M
     rid = "C05.R5"
-    fn = M.fn(WRITE_NOTES)
+    fn = M.nfn(WRITE_NOTES, closures=True)
     file = M.mods[fn.mod].rel
     insts = []
-    lines = [n for n in walk_no_nested(fn.node) if isinstance(n, ast.Assign) and isinstance(n.targets[0], ast.Name)
-             and n.targets[0].id == "line"]
-    if len(lines) != 1:
+    from .. import sympaths as SP
+    # the per-line loop: the loop over the groups whose body appends one line; the appended expression is resolved through the
+    # locals of the body (header = ..; line = header + ..; line += ..), so the names used for the pieces do not matter
+    appended = None
+    seq_name = None
+    gloop = None
+    for lp in (n for n in walk_no_nested(fn.node) if isinstance(n, ast.For)):
+        try:
+            pths = SP.enumerate_paths(lp.body, loops="havoc")
+        except OverflowError:
+            continue
+        if len(pths) != 1:
+            continue
+        for e in pths[0].effects:
+            if isinstance(e, ast.Call) and call_name(e) == "append" and isinstance(e.func.value, ast.Name) and e.args and \
+                    any(isinstance(x, ast.Call) and call_name(x) == "join" for x in ast.walk(e.args[0])):
+                appended, gloop = e.args[0], lp
+    if appended is None:
         insts.append(R.undec(rid, "note-line", file, fn.node.lineno, "note line construction not found"))
     else:
-        e = lines[0].value
+        e = appended
         parts = []
         while isinstance(e, ast.BinOp) and isinstance(e.op, ast.Add):
             parts.insert(0, e.right)
             e = e.left
         parts.insert(0, e)
+        # the last part is the payload: b"".join(<slots>)
+        payload = parts.pop() if parts and isinstance(parts[-1], ast.Call) and call_name(parts[-1]) == "join" else None
+        if payload is not None and payload.args and isinstance(payload.args[0], ast.Name):
+            seq_name = payload.args[0].id
         probs = []
+        if payload is None:
+            probs.append("the line does not end with the joined slots")
         if len(parts) != 3:
             probs.append(f"a note line is '#' + measure + channel + ':' (3 parts), found {len(parts)}")
         else:
@@ -321,13 +342,14 @@ def rule_r5(ctx) -> List[R.Inst]:
                 probs.append(f"the second field must be the two-character channel, not {unparse(parts[1])}")
             if not (isinstance(parts[2], ast.Constant) and parts[2].value == b":"):
                 probs.append("the header of a note line ends with ':'")
+        ln = getattr(appended, "lineno", gloop.lineno)
         if probs:
-            insts.append(R.viol(rid, "note-line", file, lines[0].lineno, "; ".join(probs), construct="; ".join(probs)))
+            insts.append(R.viol(rid, "note-line", file, ln, "; ".join(probs), construct="; ".join(probs)))
         else:
-            insts.append(R.ok(rid, "note-line", file, lines[0].lineno, idiom="'#' + measure:03 + channel + ':' + objects"))
+            insts.append(R.ok(rid, "note-line", file, ln, idiom="'#' + measure:03 + channel + ':' + objects"))
     # empty slots are 00 and the payload has exactly `den` slots
-    seq = [n for n in walk_no_nested(fn.node) if isinstance(n, ast.Assign) and isinstance(n.targets[0], ast.Name)
-           and n.targets[0].id == "seq"]
+    seq = [n for n in ast.walk(gloop if gloop is not None else fn.node) if isinstance(n, ast.Assign) and isinstance(n.targets[0], ast.Name)
+           and n.targets[0].id == (seq_name or "seq")]
     if len(seq) == 1 and isinstance(seq[0].value, ast.BinOp) and isinstance(seq[0].value.op, ast.Mult):
         l, r = seq[0].value.left, seq[0].value.right
         lst = l if isinstance(l, ast.List) else r
@@ -383,7 +405,7 @@ def rule_r6(ctx) -> List[R.Inst]:
     """slot arithmetic shape and timing-map provenance of the writer"""
     M = ctx.M
     rid = "C05.R6"
-    fn = M.fn(WRITE_NOTES)
+    fn = M.nfn(WRITE_NOTES, closures=True)
     file = M.mods[fn.mod].rel
     insts = []
     # tm = from_bpm_changes_offset([BpmChangeOffset(bpm=b.bpm, metronome=b.metronome, offset=b.offset) for b in self.bpms])
@@ -481,16 +503,44 @@ def rule_r6(ctx) -> List[R.Inst]:
     else:
         insts.append(R.undec(rid, "slot:rescale", file, fn.node.lineno, "rescaling of the slot numerator not recognised"))
     # the store into the line uses the rescaled numerator as index and the object's value
+    # (the payload list: the one initialised as [b"00"] * slots)
+    seqn = {n.targets[0].id for n in ast.walk(fn.node) if isinstance(n, ast.Assign) and isinstance(n.targets[0], ast.Name) and
+            isinstance(n.value, ast.BinOp) and isinstance(n.value.op, ast.Mult) and any(isinstance(x, ast.List) for x in (n.value.left, n.value.right))} or {"seq"}
     st = [n for n in ast.walk(fn.node) if isinstance(n, ast.Assign) and isinstance(n.targets[0], ast.Subscript) and
-          isinstance(n.targets[0].value, ast.Name) and n.targets[0].value.id == "seq"]
+          isinstance(n.targets[0].value, ast.Name) and n.targets[0].value.id in seqn]
     if len(st) == 1:
-        ix = unparse(strip_calls(st[0].targets[0].slice)).replace('"', "'")
-        vv = unparse(st[0].value).replace('"', "'")
-        if ix == "row['num']" and vv == "row['value']":
+        # which column of the group's rows a loop variable carries: `for _, row in G.iterrows()` -> row[c]; `for a, b in zip(G[c1], G[c2])`
+        colof = {}
+        for lp in ast.walk(fn.node):
+            if isinstance(lp, ast.For) and any(x is st[0] for x in ast.walk(lp)):
+                if isinstance(lp.iter, ast.Call) and call_name(lp.iter) == "iterrows" and isinstance(lp.target, ast.Tuple) and len(lp.target.elts) == 2 \
+                        and isinstance(lp.target.elts[1], ast.Name):
+                    colof[lp.target.elts[1].id] = ("row", unparse(lp.iter.func.value))
+                if isinstance(lp.iter, ast.Call) and call_name(lp.iter) == "zip" and isinstance(lp.target, ast.Tuple) and \
+                        len(lp.target.elts) == len(lp.iter.args):
+                    for t_, a_ in zip(lp.target.elts, lp.iter.args):
+                        if isinstance(a_, ast.Name):
+                            ds_ = [x.value for x in ast.walk(fn.node) if isinstance(x, ast.Assign) and isinstance(x.targets[0], ast.Name) and x.targets[0].id == a_.id]
+                            a_ = ds_[0] if len(ds_) == 1 else a_
+                        if isinstance(t_, ast.Name) and isinstance(a_, ast.Subscript) and C.const_str(a_.slice):
+                            colof[t_.id] = ("col", unparse(a_.value), C.const_str(a_.slice))
+
+        def column_of(e):
+            e = strip_calls(e)
+            if isinstance(e, ast.Subscript) and isinstance(e.value, ast.Name) and colof.get(e.value.id, ("",))[0] == "row" and C.const_str(e.slice):
+                return (colof[e.value.id][1], C.const_str(e.slice))
+            if isinstance(e, ast.Name) and colof.get(e.id, ("",))[0] == "col":
+                return (colof[e.id][1], colof[e.id][2])
+            return None
+        ci, cv = column_of(st[0].targets[0].slice), column_of(st[0].value)
+        if ci is not None and cv is not None and ci[0] == cv[0] and ci[1] == "num" and cv[1] == "value":
             insts.append(R.ok(rid, "slot:store", file, st[0].lineno, idiom="seq[num] = value"))
+        elif ci is None or cv is None:
+            insts.append(R.undec(rid, "slot:store", file, st[0].lineno, f"provenance of index / value in '{unparse(st[0])[:60]}' not resolved"))
         else:
             insts.append(R.viol(rid, "slot:store", file, st[0].lineno, "each object is stored at its own slot: seq[num] = value",
-                                construct=unparse(st[0])))
+                                construct=unparse(st[0]))
+                         )
     else:
         insts.append(R.undec(rid, "slot:store", file, fn.node.lineno, "store into the line payload not recognised"))
     return insts
